@@ -97,6 +97,35 @@ def gen_snippets(rng, glob, methods, n):
             if rng.random() < 0.3:
                 recv = rng.choice(ARGS)
             expr = "(%s).%s(%s)" % (recv, m, _args(rng))
+        elif k < 0.86 and mcallees:
+            # the receiver is a named mutable value and the arguments alias it (directly, wrapped, as a view,
+            # or through a callback that mutates it): borrow / iteration-lock conflicts inside one native call
+            recv = rng.choice(["RL", "RD", "RS"])
+            kind = {"RL": "[1, 2]", "RD": "{\"a\": 1}", "RS": "set([1])"}[recv]
+            ms = methods.get(kind) or ["append"]
+            m = rng.choice(ms)
+            al = ["%s", "[%s]", "(%s,)", "[%s, %s]" , "{\"k\": %s}", "[[%s]]", "(%s, 1)", "[(1, %s)]"]
+            views = {"RL": ["RL[:]", "reversed(RL)", "enumerate(RL)", "zip(RL, RL)"], "RD": ["RD.items()", "RD.keys()", "RD.values()", "[RD.items()]", "list(RD.items())", "zip(RD, RD)"],
+                     "RS": ["list(RS)", "RS | RS"]}[recv]
+            cbs = ["lambda *a: %s.clear()" % recv, "lambda *a: %s" % recv,
+                   {"RL": "lambda *a: RL.append(1)", "RD": "lambda *a: RD.update(z=1)", "RS": "lambda *a: RS.add(9)"}[recv]]
+            def alias():
+                r = rng.random()
+                if r < 0.5:
+                    t = rng.choice(al)
+                    return t % ((recv,) * t.count("%s"))
+                if r < 0.75:
+                    return rng.choice(views)
+                if r < 0.9:
+                    return rng.choice(cbs)
+                return rng.choice(ARGS)
+            n_args = rng.choice([1, 1, 2, 2, 3])
+            parts = [alias() for _ in range(n_args)]
+            if rng.random() < 0.2:
+                parts.append("%s=%s" % (rng.choice(["key", "default", "x"]), alias()))
+            expr = "%s.%s(%s)" % (recv, m, ", ".join(parts))
+            out.append("RL = [1, 2]\nRD = {1: 2, 3: 4}\nRS = set([1, 2])\n_r = " + expr)
+            continue
         elif k < 0.9:
             op = rng.choice(OPS)
             # repeat counts stay bounded: `*` only combines small operands
@@ -207,7 +236,8 @@ def run(tier):
             # locals assigned on some paths only: 'referenced before assignment' must stay an error, whatever the compiler proved
             evals = [{"src": gen_core.gen_unassigned(random.Random(rng.random())), "file": "u%d.star" % j} for j in range(40)]
         else:
-            evals = [{"src": "_r = %s\n" % sn if rng.random() < 0.5 else "%s\n" % sn, "file": "e%d.star" % j} for j, sn in enumerate(gen_snippets(rng, glob, methods, per))]
+            evals = [{"src": (sn + "\n") if sn.startswith("RL = ") else ("_r = %s\n" % sn if rng.random() < 0.5 else "%s\n" % sn), "file": "e%d.star" % j}
+                     for j, sn in enumerate(gen_snippets(rng, glob, methods, per))]
         if i % 7 == 3:
             # names that do not resolve: the failure happens before any statement runs (scope errors)
             for j in range(0, len(evals), 9):
